@@ -390,6 +390,35 @@ def cmd_mutants(argv):
     return 0 if not bad else 1
 
 
+def cmd_reality(argv):
+    """Run the stand-alone real-process demonstrations (no simulator) against the repository: each was
+    written to fail on the defect it documents and must exit 0 on the repaired tree."""
+    import signal
+    d = os.path.join(runner.VERIF_DIR, "findings")
+    bad = 0
+    names = sorted(f for f in os.listdir(d) if f.startswith("real_") and f.endswith(".py"))
+    for fn in names:
+        t0 = time.monotonic()
+        p = subprocess.Popen([sys.executable, os.path.join(d, fn), runner.REPO_ROOT], stdout=subprocess.PIPE,
+                             stderr=subprocess.STDOUT, start_new_session=True, text=True)
+        try:
+            out, _ = p.communicate(timeout=120)
+            code = p.returncode
+        except subprocess.TimeoutExpired:
+            code = -9
+            out = "(timeout)"
+        try:
+            os.killpg(p.pid, signal.SIGKILL)
+        except Exception:  # noqa
+            pass
+        ok = code == 0
+        bad += not ok
+        last = (out or "").strip().split("\n")[-1][:120]
+        print(f"reality {fn}: {'OK' if ok else 'FAILED exit %s' % code} ({time.monotonic() - t0:.1f}s) {last}")
+    print(f"reality: {len(names)} real-process demonstrations, {'all pass on this tree' if not bad else str(bad) + ' FAIL'}")
+    return 0 if not bad else 1
+
+
 def main(argv):
     if not argv:
         print(__doc__)
@@ -403,5 +432,7 @@ def main(argv):
         return cmd_conformance(argv[1:])
     if cmd == "mutants":
         return cmd_mutants(argv[1:])
+    if cmd == "reality":
+        return cmd_reality(argv[1:])
     print(__doc__)
     return 2
